@@ -104,8 +104,33 @@ def h_recover(ctx, n, rho, m, cap_extra, variant, sym_factor):
     ctx.canary('canary', ctx.all_eq(ref_full(Z), ref_full(T) * 2))
 
 
+def h_concrete_overrank(ctx):
+    """Real code, random targets of TT-rank rho with d >= 3 and an expected rank
+    m > rho (the interface matrices of the later cores are then rank deficient:
+    minimum-norm least squares, not encodable): the tensor is recovered for
+    every seed of the sample generator tried."""
+    ok, wf = True, True
+    for n, rho, m, cap in [([4, 4, 4], 1, 2, 1e12), ([4, 4, 4], 2, 3, 1e12), ([5, 4, 5, 4], 2, 3, 1e12), ([4, 4, 4], 1, 3, 3),
+                           ([4, 5, 4], 2, 4, 4)]:
+        for seed in range(6):
+            T = teneva.rand(n, rho, seed=100 + seed)
+            I, idx, idm = teneva.sample_tt(n, r=m, seed=seed)
+            y = teneva.get_many(T, I)
+            try:
+                Z = teneva.svd_incomplete(I, y, idx, idm, e=1e-10, r=cap)
+            except np.linalg.LinAlgError:
+                ok = False
+                continue
+            wf = wf and well_formed(Z, n) and all(G.shape[2] <= cap for G in Z)
+            F = teneva.full(T)
+            ok = ok and bool(np.linalg.norm(teneva.full(Z) - F) <= 1e-6 * np.linalg.norm(F))
+    ctx.claim('well_formed_ranks_le_cap', bool(wf))
+    ctx.claim('recovers_target', bool(ok))
+
+
 def instances(tier):
     out = []
+    out.append({'func': 'h_concrete_overrank', 'params': {}, 'opts': {'concrete_only': True}})
     quick = tier == 'quick'
     G = {'generic_divisors': True}
     cfg = [([2, 2], 1, 1, 0, 'first', False), ([2, 2], 1, 2, 0, 'last', False), ([3, 3], 2, 2, 0, 'first', False),
